@@ -72,7 +72,123 @@ func c02(c *Ctx) {
 		for _, r := range returnsOf(deq) {
 			if !ConstNil(r.Results[0]) {
 				c.ValueIs(r, r.Results[0], "returns-head-item", FieldLoadOn(fIt, FieldLoad(fHead)))
+			} else if r.Block() != deq.Recover {
+				c.MustFact(r, "nothing-only-from-an-empty-list", IsNil(FieldLoad(fHead)))
 			}
+		}
+		// the tail is cleared exactly when the list became empty (a stale tail would make the next enqueue link behind a removed node and lose the item)
+		nT := 0
+		for _, st := range storesToField(deq, fTail) {
+			nT++
+			c.ValueIs(st, st.Val, "tail-cleared", ConstNil)
+			c.MustFact(st, "tail-cleared-only-when-list-became-empty", IsNil(FieldLoad(fHead)))
+			if len(st.Block().Succs) == 1 {
+				c.EnteredOnlyWhenExcept(st.Block().Succs[0], "tail-kept-only-while-nodes-remain", func(p *ssa.BasicBlock) bool { return p == st.Block() }, NotNil(FieldLoad(fHead)))
+			}
+		}
+		c.Expect(nT == 1, nil, deq, "tail-maintained", "dequeue does not clear the tail when the list becomes empty")
+		for _, st := range storesToField(enq, fTail) {
+			c.ValueIs(st, st.Val, "tail-becomes-the-new-node", func(v ssa.Value) bool { _, ok := v.(*ssa.Alloc); return ok || DataDep(CallRes(CalleeX("sync", "Pool.Get"), 0))(v) })
+		}
+	})
+	c.Ob("frame-assembly", "R3", "processData: 'nothing left of this item' means header bytes == 0 and reader bytes == 0; the header piece h[:hSize] is put into the write buffer unless hSize <= 0 and the data piece is peeked from the reader unless dSize <= 0, with the sizes that are then charged and dropped; a reader failure never ends in a success return", 5, func() {
+		pd := c.fn(tr, "loopyWriter.processData")
+		fH := c.field(tr, "dataFrame", "h")
+		fWB := c.field(tr, "loopyWriter", "writeBuf")
+		rem := CallRes(Callee("mem", "Reader.Remaining"), 0)
+		// the is-empty flag
+		nE := 0
+		for _, b := range pd.Blocks {
+			for _, in := range b.Instrs {
+				ph, ok := in.(*ssa.Phi)
+				if !ok || len(ph.Edges) != 2 {
+					continue
+				}
+				if bt, isB := ph.Type().Underlying().(*types.Basic); !isB || bt.Kind() != types.Bool {
+					continue
+				}
+				var cst, cmp ssa.Value
+				var cstPred *ssa.BasicBlock
+				for i, e := range ph.Edges {
+					if _, isC := e.(*ssa.Const); isC {
+						cst, cstPred = e, b.Preds[i]
+					} else {
+						cmp = e
+					}
+				}
+				bo, isCmp := cmp.(*ssa.BinOp)
+				if cst == nil || !isCmp || !(rem(bo.X) || LenOf(FieldLoad(fH))(bo.X)) {
+					continue
+				}
+				nE++
+				c.inst("is-empty flag <- " + c.siteStr(ph))
+				fs := append(append([]Fact(nil), FactsAtBlock(cstPred)...), edgeOnlyFacts(cstPred, b)...)
+				other := CmpInt(LenOf(FieldLoad(fH)), token.NEQ, 0)
+				if LenOf(FieldLoad(fH))(bo.X) {
+					other = CmpInt(rem, token.NEQ, 0)
+				}
+				_, okF := hasFact(fs, other)
+				c.Expect(ConstBool(false)(cst) && okF && bo.Op == token.EQL && ConstInt(0)(bo.Y), ph, pd, "empty-means-no-header-bytes-and-no-reader-bytes", "the 'nothing left to send' flag is not (len(h) == 0 && reader.Remaining() == 0)")
+			}
+		}
+		c.Expect(nE == 1, nil, pd, "is-empty-flag", "the 'nothing left to send' flag was not found")
+		// pieces
+		nP := 0
+		for _, in := range instrsWhere(pd, func(in ssa.Instruction) bool {
+			call, ok := in.(*ssa.Call)
+			return ok && BuiltinCall("append")(&call.Call)
+		}) {
+			app := in.(*ssa.Call)
+			for _, el := range appendedElems(app) {
+				sl, ok := el.(*ssa.Slice)
+				if !ok || !FieldLoad(fH)(sl.X) || sl.Low != nil || sl.High == nil {
+					continue
+				}
+				nP++
+				hs := sl.High
+				c.Expect(FieldLoad(fWB)(app.Call.Args[0]), app, pd, "header-piece-goes-into-the-write-buffer", "the header piece is appended to something other than the write buffer")
+				if len(app.Block().Succs) == 1 {
+					c.EnteredOnlyWhenExcept(app.Block().Succs[0], "header-piece-skipped-only-when-empty", func(p *ssa.BasicBlock) bool { return p == app.Block() }, CmpInt(func(v ssa.Value) bool { return v == hs }, token.LEQ, 0))
+				}
+				// the same size is what is dropped from h after the write
+				okDrop := false
+				for _, st := range storesToField(pd, fH) {
+					if s2, ok := st.Val.(*ssa.Slice); ok && s2.Low == hs && s2.High == nil {
+						okDrop = true
+					}
+				}
+				c.Expect(okDrop, app, pd, "written-header-prefix-is-what-is-dropped", "the header bytes dropped after the write are not the header bytes written")
+			}
+		}
+		c.Expect(nP == 1, nil, pd, "header-piece", "the header piece h[:hSize] is not put into the write buffer")
+		pk := one(c, "reader.Peek", callsIn(pd, Callee("mem", "Reader.Peek")))
+		ds := pk.Common().Args[1]
+		c.ArgIs(pk, 2, "data-piece-goes-into-the-write-buffer", FieldLoad(fWB))
+		okSt := false
+		for _, st := range storesToField(pd, fWB) {
+			if e, ok := st.Val.(*ssa.Extract); ok && e.Tuple == pk.Value() && e.Index == 0 {
+				okSt = true
+			}
+		}
+		c.Expect(okSt, pk, pd, "peeked-bytes-kept", "the bytes peeked from the reader are not kept in the write buffer")
+		// skipped only when dSize <= 0: the block after the `if dSize > 0` is entered from outside the peek arm only so
+		if pb := pk.Block(); len(pb.Preds) == 1 {
+			test := pb.Preds[0]
+			for _, su := range test.Succs {
+				if su != pb {
+					c.EnteredOnlyWhenExcept(su, "data-piece-skipped-only-when-empty", func(p *ssa.BasicBlock) bool { return p != test }, CmpInt(func(v ssa.Value) bool { return v == ds }, token.LEQ, 0))
+				}
+			}
+		}
+		for _, dc := range callsIn(pd, Callee("mem", "Reader.Discard")) {
+			c.ArgIs(dc, 1, "discards-what-was-peeked", func(v ssa.Value) bool { return v == ds })
+		}
+		c.Expect(len(callsIn(pd, Callee("mem", "Reader.Discard"))) == 1, nil, pd, "written-data-discarded", "the written data bytes are not dropped from the reader")
+		c.ErrorsPropagate(pd, "processData", nil)
+		// trailers: only for a stream the writer knows
+		sh := c.fn(tr, "loopyWriter.serverHeaderHandler")
+		for _, ci := range append(callsIn(sh, Callee(tr, "loopyWriter.writeHeader")), callsIn(sh, onItl("enqueue"))...) {
+			c.MustFact(ci, "headers-only-for-a-known-stream", Truth(CommaOkOf(FieldLoad(c.field(tr, "loopyWriter", "estdStreams"))), true))
 		}
 	})
 	c.Ob("end-stream-flag", "R2", "END_STREAM accompanies a DATA frame only if the item requests it and zero bytes of the item remain after this write; an item leaves the queue only when zero bytes remain; the written prefix is dropped after each write", 5, func() {
@@ -487,6 +603,29 @@ func c03(c *Ctx) {
 					return ok
 				}}
 			c.MustPass("handle-then-process-data", q, h)
+		}
+		// the writer loop ends only with an error (a successful step never terminates it)
+		for _, r := range returnsOf(run) {
+			if r.Block() == run.Recover || len(r.Results) == 0 {
+				continue
+			}
+			val := strip(r.Results[0])
+			c.MustFact(r, "writer-loop-ends-only-with-an-error", NotNil(func(v ssa.Value) bool { return v == val || strip(v) == val }))
+		}
+		// the inner loop is left (flush, then block for the next control item) only when there was no control item and the data step had nothing to do
+		nFl := 0
+		for _, fl := range callsIn(run, Callee(tr, "bufWriter.Flush")) {
+			nFl++
+			c.MustFact(fl, "blocks-only-without-pending-control-item", IsNil(CallRes(Callee(tr, "controlBuffer.get"), 0)))
+			c.MustFact(fl, "blocks-only-when-the-data-step-had-nothing-to-do", Truth(CallRes(Callee(tr, "loopyWriter.processData"), 0), true))
+		}
+		c.Expect(nFl == 1, nil, run, "flush-before-blocking", "expected one flush before the loop blocks for the next item")
+		for _, h := range hs {
+			if it, ok := h.Common().Args[1].(*ssa.Extract); ok {
+				if g, ok := it.Tuple.(*ssa.Call); ok && ConstBool(false)(g.Call.Args[1]) {
+					c.MustFact(h, "handles-only-an-existing-item", NotNil(func(v ssa.Value) bool { return v == ssa.Value(it) }))
+				}
+			}
 		}
 		// the loop blocks only when the data step reported nothing to do
 		for _, g := range callsIn(run, Callee(tr, "controlBuffer.get")) {
